@@ -9,7 +9,7 @@ func zclass(t *T, v V) string {
 			return "nil"
 		}
 		if t.K == KPtr {
-			if t.Elem.K == KPtr && v.E[0].Nil {
+			if t.Elem.K == KPtr && ptrChainNil(t.Elem, v.E[0]) {
 				return "ptr2nilptr"
 			}
 			if Omit(t.Elem, v.E[0]) {
@@ -25,6 +25,7 @@ func zclass(t *T, v V) string {
 		if v.Nil {
 			return "null"
 		}
+		return "valid"
 	case KFloat32:
 		if uint32(v.U) == 0x80000000 {
 			return "-0"
